@@ -101,7 +101,7 @@ func parserOwned(p *load.Program, a *regions.Analysis, o *regions.Object) bool {
 	if r == a.GlobalObj(p.Roles.ParserGlobal) {
 		return true
 	}
-	if r.Kind == regions.KAlloc && r.Fn != nil && p.FuncIsGenerated(r.Fn) && a.ParseReach[r.Fn] {
+	if r.Kind == regions.KAlloc && r.Fn != nil && engineFunc(p, r.Fn) && a.ParseReach[r.Fn] {
 		return true
 	}
 	return false
@@ -840,7 +840,7 @@ func ruleTreeClosed(c *engine.Context) *report.Rule {
 			viol = "a pooled scratch object"
 		case o.Root() == pg:
 			viol = "the global parser's storage"
-		case o.Root().Kind == regions.KAlloc && o.Root().Fn != nil && p.FuncIsGenerated(o.Root().Fn):
+		case o.Root().Kind == regions.KAlloc && o.Root().Fn != nil && engineFunc(p, o.Root().Fn):
 			viol = "memory allocated by the generated parser"
 		}
 		r.Oblige(viol == "")
@@ -859,7 +859,7 @@ func ruleTreeClosed(c *engine.Context) *report.Rule {
 		}
 	}
 	for _, o := range a.Objects() {
-		if o.Kind == regions.KAlloc && o.Parent == nil && o.Fn != nil && p.FuncIsGenerated(o.Fn) {
+		if o.Kind == regions.KAlloc && o.Parent == nil && o.Fn != nil && engineFunc(p, o.Fn) {
 			roots = append(roots, o)
 		}
 	}
@@ -868,7 +868,7 @@ func ruleTreeClosed(c *engine.Context) *report.Rule {
 	seenBad := map[*regions.Object]bool{}
 	for x := range persistent {
 		// node objects = hand-written PARSE allocations that are part of a returned tree
-		if tree[x] && x.Root().Kind == regions.KAlloc && x.Root().Fn != nil && !p.FuncIsGenerated(x.Root().Fn) && !seenBad[x.Root()] {
+		if tree[x] && x.Root().Kind == regions.KAlloc && x.Root().Fn != nil && !engineFunc(p, x.Root().Fn) && !seenBad[x.Root()] {
 			seenBad[x.Root()] = true
 			r.Violation("persistent parser state reaches tree object "+x.Root().String(), "-",
 				"memory of the global parser that persists across Parse calls can point to %s, part of a tree handed to a caller: a later Parse could modify an earlier function", x.Root())
@@ -940,4 +940,21 @@ func outsideParse(c *engine.Context) (map[*ssa.Function]bool, map[*ssa.Function]
 		return res{nonParse, blind}
 	}).(res)
 	return v.a, v.b
+}
+
+// engineFunc: a function of the generated parsing engine. The generated Execute method is not one:
+// its body is the grammar's action code (hand-written Go pasted into a switch), so what it
+// allocates are nodes of the tree being built, exactly like allocations in the hand-written
+// helpers the actions call; the engine's own persistent memory (token arrays, rule tables, memo
+// tables) is allocated by the other generated functions.
+func engineFunc(p *load.Program, fn *ssa.Function) bool {
+	if !p.FuncIsGenerated(fn) {
+		return false
+	}
+	for f := fn; f != nil; f = f.Parent() {
+		if f.Name() == "Execute" && f.Signature.Recv() != nil && f.Parent() == nil {
+			return false
+		}
+	}
+	return true
 }
